@@ -202,9 +202,16 @@ Start(s) ==
               ELSE /\ cat' = [cat EXCEPT ![st.t] = [k |-> "none", id |-> NoId]]
                    /\ ss' = [ss EXCEPT ![s] = [@ EXCEPT !.pc = "run"] @@ [scan |-> NoScan, task |-> [pc |-> "applied"]]]
                    /\ UNCHANGED <<results, vmv, nextTid, nextRs, nextDv, tlock, mlock, dirs, rsrows, dvrows, man>>
-    /\ LET boom == ss[s].st.k \in {"ins", "del", "sel"} /\ TableGone(s) IN
+    /\ LET boom == ss[s].st.k \in {"ins", "del", "sel"} /\ TableGone(s)
+           \* a CREATE TABLE is logged while a DROP of the same name has changed the catalog but not yet logged its
+           \* DropTable: the log then holds two CreateTable records of the name in a row and replay fails (F35)
+           early == /\ ss[s].st.k = "ct"
+                    /\ \E o \in DOMAIN ss : /\ o # s /\ ss[o].pc = "run" /\ ss[o].st.k = "dt"
+                                              /\ ss[o].st.t = ss[s].st.t /\ ss[o].task.pc \in {"applied", "pinned"}
+       IN
        /\ fail' = (fail \/ boom)
-       /\ kf' = IF boom /\ "BuildAfterDropPanics" \in Dev THEN kf \cup {"BuildAfterDropPanics"} ELSE kf
+       /\ kf' = (IF boom /\ "BuildAfterDropPanics" \in Dev THEN kf \cup {"BuildAfterDropPanics"} ELSE kf)
+                 \cup (IF early /\ "CreateBeforeDropLogged" \in Dev THEN {"CreateBeforeDropLogged"} ELSE {})
     /\ UNCHANGED <<comp, vac>>
 
 Running(s) == ss[s].pc = "run"
